@@ -649,7 +649,8 @@ class SxGate(Gate):
         """
         Return the inverse operator.
         """
-        return self
+        # the matrix above is Rx(pi/2), which is not an involution
+        return RxGate(-np.pi/2, self.qubit)
     
     def on(self, qubit: Qubit):
         """
